@@ -16,7 +16,7 @@ def configs(tier):
     big = (1, 2, 3) if tier != "quick" else (1, 2)
     for nl, np_, nt, nc, rank in itertools.product(big, big, (1, 2), big, (False, True)):
         if tier == "quick" and (nl, np_, nt, nc, rank) not in ((1, 1, 1, 1, False), (2, 2, 2, 2, True), (2, 1, 2, 1, False),
-                                                              (1, 2, 1, 2, True)):
+                                                              (1, 2, 1, 2, True), (1, 1, 1, 2, False)):
             continue
         spec = []
         r = 0
@@ -28,7 +28,8 @@ def configs(tier):
                 rk = (nl - 1 - li) * np_ + (np_ - 1 - pi) if rank else None
                 procs.append({"pid": pid, "app": 1 + pi, "rank": rk, "nranks": (nl * np_ if rank else None),
                               "threads": [pid + 1 + ti for ti in range(nt)]})
-            spec.append({"name": "n%d" % li, "cpus": [(ci, (nc - 1 - ci) + 3 * li) for ci in range(nc)], "procs": procs})
+            # physical ids far from the positions (a job pinned to cores 20.., 40..): values that name a CPU must use the position
+            spec.append({"name": "n%d" % li, "cpus": [(ci, (nc - 1 - ci) + 20 * (li + 1)) for ci in range(nc)], "procs": procs})
         out.append(spec)
     return out
 
@@ -148,6 +149,12 @@ def histories(spec, cat, gold, model, tier):
     if model == "ovni":
         s0 = idx[rels[0][0]]
         out.append(("flush", start() + [Ev(s0, "OF["), Ev(s0, "OF]")] + stop(), ()))
+        l0 = rels[0][1]
+        nth0 = sum(1 for r in rels if r[1]["name"] == l0["name"])
+        if nth0 < len(l0["cpus"]):
+            # a free CPU in the first loom: the running thread migrates there and back
+            free = len(l0["cpus"]) - 1
+            out.append(("migrate", start() + [Ev(s0, "OAs", i32(free)), Ev(s0, "OB."), Ev(s0, "OAs", i32(0))] + stop(), ()))
         out.append(("affinity", start() + [Ev(s0, "OAs", i32(-1)), Ev(s0, "OHp"), Ev(s0, "OHr"), Ev(s0, "OHc"), Ev(s0, "OHp"), Ev(s0, "OHw"), Ev(s0, "OHr")] + stop(), ()))
     return rels, out
 
